@@ -420,6 +420,13 @@ class SourceCatalog:
         if not np.array_equal(detection_cat._segment_img, self._segment_img):
             raise ValueError('detection_cat must have same segment_img as '
                              'the input segment_img')
+        # a sliced or reordered catalog shares the segment_img, but its
+        # rows no longer correspond to the labels of the segment_img
+        if not np.array_equal(np.atleast_1d(detection_cat.labels),
+                              self._segment_img.labels):
+            raise ValueError('detection_cat must contain the same sources '
+                             '(labels), in the same order, as the input '
+                             'segment_img')
         return detection_cat
 
     def _update_meta(self):
